@@ -14,11 +14,20 @@ use camino::Utf8Path;
 #[tracing::instrument("Checksum crate files", level = tracing::Level::DEBUG)]
 pub(crate) fn checksum_crate(root_path: &Utf8Path) -> Result<u64, anyhow::Error> {
     let paths = get_file_paths(root_path)?;
+    let root_dir = root_path
+        .canonicalize()
+        .context("Failed to canonicalize the path to the root directory")?;
 
     let mut hasher = xxhash_rust::xxh64::Xxh64::new(24);
     for path in paths {
         let contents = std::fs::read(&path)
             .with_context(|| format!("Failed to read file at `{}`", path.display()))?;
+        // The location of a file within the package matters as much as its contents
+        // (e.g. it determines the module path of the items it defines), so it must
+        // be part of the checksum, together with the boundary between one file and the next.
+        let relative_path = path.strip_prefix(&root_dir).unwrap_or(&path);
+        hasher.update(relative_path.to_string_lossy().as_bytes());
+        hasher.update(&(contents.len() as u64).to_le_bytes());
         hasher.update(&contents);
     }
     Ok(hasher.digest())
